@@ -4,7 +4,7 @@ import fam_emit as fe
 from run_common import coverage, pick
 from vlib import load_known
 
-PREDS = {"C07_EmittedParses", "C07_BadResultReported"}
+PREDS = {"C07_EmittedParses", "C07_BadResultReported", "C07_OutputWellFormed"}
 ASSUME = [
     "'parses as Go' is go/parser's verdict (observer)",
     "emitted content is recovered from disk, stdout (print mode) and by applying the printed diff",
@@ -18,6 +18,14 @@ def run(ctx):
     ref = fr.reference_outputs(ctx)
     scs = [s for s in fr.enumerate_scenarios(2, faults=["none"]) if "badresult" in s["kinds"]]
     scs = pick(ctx, scs, 300 if quick else None)
+    # runs of three files in which one fails while others are emitted (small and large contents mixed)
+    three = [s for s in fr.enumerate_scenarios(3, faults=["none"]) if len(s["kinds"]) == 3 and s["kinds"].count("match") == 2 and
+             any(k in s["kinds"] for k in ("badresult", "unparseable", "replaceerr")) and (s["flags"]["print"] or s["flags"]["diff"])]
+    for s in three:
+        ks = s["kinds"]
+        big = ctx.rng.sample([fr.BIG_MATCH, fr.MID_MATCH, fr.MATCH, fr.CONTENT["match"][3]], 2)
+        s["contents"] = [big.pop() if k == "match" else ctx.rng.choice(fr.CONTENT[k]) for k in ks]
+    scs += pick(ctx, three, 80 if quick else None)
     real = [fr.realise(ctx, s, "c07-%d" % i, ctx.rng) for i, s in enumerate(scs)]
     recs = fr.run_cli(ctx, real, "c07")
     results = fr.validate(ctx, "c07", recs, ref)
